@@ -1,5 +1,6 @@
 import TinysetModel.Proofs.PropsAux
 import TinysetModel.Proofs.Demo
+import TinysetModel.Proofs.TotalOpsExtend
 /-! C09 — union and difference operators compute exactly the mathematical result.
 
 Model functions (`Model/Ops.lean`, following `src/copyset.rs` and `src/set64.rs`):
@@ -181,6 +182,20 @@ example : len (.heap 4 4 23 #[40, 401016175510691840, 0, 360712192]) =
 example : ∀ x, x ∈ elems cfg64 (.heap 1 3 23 #[401016175510691840, 0, 0]) ↔
     (x ∈ elems cfg64 Demo.bitmap64 ∧ x ∉ elems cfg64 Demo.inline) :=
   (diff_ref_u64 detRng 6 Demo.bitmap64_wf Demo.inline64_wf demo_diff).2.1
+
+/-- SetU64: `&a | &b` always returns, with exactly the union (operands within the ghost capacity bound of C11) -/
+theorem union_ref_returns_u64 {D : Type} (g : Rng D) (fuel : Nat) {a b : Rp} (wa : WF cfg64 a) (wb : WF cfg64 b) {Ma Mb : Nat}
+    (ha : CapOK a Ma) (hb : CapOK b Mb) (hsize : Ma + Mb < 2 ^ 60) (d : D) :
+    ∃ r d', unionRef cfg64 g (fuel + 2) a b d = .ok (r, d') ∧ WF cfg64 r ∧
+      (∀ x, x ∈ elems cfg64 r ↔ (x ∈ elems cfg64 a ∨ x ∈ elems cfg64 b)) :=
+  unionRef_total_u64 g fuel wa wb ha hb hsize d
+
+/-- SetU64: `&a - &b` always returns, with exactly the difference -/
+theorem diff_ref_returns_u64 {D : Type} (g : Rng D) (fuel : Nat) {a b : Rp} (wa : WF cfg64 a) (wb : WF cfg64 b) {Ma : Nat}
+    (ha : CapOK a Ma) (hsize : Ma < 2 ^ 60) (d : D) :
+    ∃ r d', diffRef cfg64 g (fuel + 2) a b d = .ok (r, d') ∧ WF cfg64 r ∧
+      (∀ x, x ∈ elems cfg64 r ↔ (x ∈ elems cfg64 a ∧ x ∉ elems cfg64 b)) :=
+  diffRef_total_u64 g fuel wa wb ha hsize d
 
 end C09
 
